@@ -654,3 +654,87 @@ func c14R6(c *Ctx, r *Report) {
 	}
 	r.Note("%s: %d field(s) appended to in the concurrent region, %d sequential range site(s)", rule, len(fields), n)
 }
+
+func init() {
+	lateInits = append(lateInits, func() {
+		props["C03"].Quick = append(props["C03"].Quick, c03R8)
+		props["C11"].Quick = append(props["C11"].Quick, c03R8)
+		props["C03"].Explanation += " (R8) the operands of `??` and of a range are related to each other: the default is checked against the optional's payload type, typed range bounds/step must have one type."
+	})
+}
+
+// C03.R8: operand relations of `a ?? b` and `a..b:c`.
+func c03R8(c *Ctx, r *Report) {
+	const rule = "C03.R8"
+	r.Describe(rule, "checkExpr: case CoalescingExpr checks Default against the payload type (checkAssignLike / typed checkExpr); case RangeExpr compares the bound types with Equals and reports a mismatch")
+	ce := c.LookupFn(pkgTC, "checkExpr")
+	cal := c.LookupFn(pkgTC, "checkAssignLike")
+	bagAdd := c.LookupFn("internal/diagnostics", "(*DiagnosticBag).Add")
+	unknownVar := c.lookupObj(pkgTypes, "TypeUnknown")
+	if !r.Anchor(rule, ce != nil && cal != nil && bagAdd != nil && unknownVar != nil, "typechecker.checkExpr / checkAssignLike / DiagnosticBag.Add / TypeUnknown") {
+		return
+	}
+	info := ce.Info()
+	clause := func(kind string) *ast.CaseClause {
+		var out *ast.CaseClause
+		ast.Inspect(ce.Decl.Body, func(x ast.Node) bool {
+			if cc, ok := x.(*ast.CaseClause); ok && out == nil {
+				for _, t := range caseTypes(info, cc) {
+					if nt := namedOf(t); nt != nil && nt.Obj().Name() == kind {
+						out = cc
+					}
+				}
+			}
+			return true
+		})
+		return out
+	}
+	if cc := clause("CoalescingExpr"); r.Anchor(rule, cc != nil, "checkExpr: case *ast.CoalescingExpr") {
+		related := false
+		for _, st := range cc.Body {
+			for _, call := range callsIn(st, false) {
+				mentionsDefault := false
+				for _, a := range call.Args {
+					if strings.HasSuffix(exprStr(a), ".Default") {
+						mentionsDefault = true
+					}
+				}
+				if !mentionsDefault {
+					continue
+				}
+				if isCallTo(info, call, cal.Obj) {
+					related = true
+				}
+				if isCallTo(info, call, ce.Obj) && len(call.Args) == 4 && objOf(info, call.Args[3]) != unknownVar {
+					related = true
+				}
+			}
+		}
+		r.Check(related, rule, ce.Name(), "`a ?? b`: b checked against the payload type of a", c.pos(cc.Pos()),
+			"the default of `??` is checked without an expected type: `o ?? x` with o: i32? and x: i64 is accepted and the value is silently narrowed (5000000000 becomes 705032704); `o ?? 5` with o: str? is accepted")
+	}
+	if cc := clause("RangeExpr"); r.Anchor(rule, cc != nil, "checkExpr: case *ast.RangeExpr") {
+		// an Error report under a condition that contains a negated Equals call
+		ok := false
+		for _, st := range cc.Body {
+			ast.Inspect(st, func(x ast.Node) bool {
+				ifs, isIf := x.(*ast.IfStmt)
+				if !isIf || nodeCalls(info, ifs.Body, bagAdd.Obj) == nil {
+					return true
+				}
+				for _, cj := range conjuncts(ifs.Cond) {
+					if u, isNot := ast.Unparen(cj).(*ast.UnaryExpr); isNot && u.Op == token.NOT {
+						if cl, isCall := ast.Unparen(u.X).(*ast.CallExpr); isCall {
+							if sel, isSel := cl.Fun.(*ast.SelectorExpr); isSel && sel.Sel.Name == "Equals" {
+								ok = true
+							}
+						}
+					}
+				}
+				return true
+			})
+		}
+		r.Check(ok, rule, ce.Name(), "`a..b:c`: bound types compared, mismatch reported", c.pos(cc.Pos()),
+			"the bounds of a range are not related to each other: `for i in s..e` with s: i32 = -2 and e: u64 converts -2 to 2^64-2 without a cast and the loop never runs")
+	}
+}
